@@ -148,9 +148,15 @@ def multi_cases(types, extra=None, share=False):
   g1 = [ops for ops in eg.histories(1, alpha)]
   for a in g1:
     for b in g1:
-      c = {'ir': {'subgraphs': [
-          {'ops': a, 'exports': []},
-          {'ops': b, 'exports': [], 'prefix': 'b_', 'key': 'sig1'}]}}
-      if extra:
-        c.update(extra)
-      yield c
+      for k, rev in enumerate((False, True)):
+        # every 3rd pair also with signature_defs listed in reverse order
+        if rev and (len(a[0]['t']) + 2 * len(b[0]['t'])) % 3:
+          continue
+        c = {'ir': {'subgraphs': [
+            {'ops': a, 'exports': []},
+            {'ops': b, 'exports': [], 'prefix': 'b_', 'key': 'sig1'}]}}
+        if rev:
+          c['ir']['sigdefs'] = 'rev'
+        if extra:
+          c.update(extra)
+        yield c
